@@ -33,7 +33,7 @@ CLAIMS = {
          "hands a block to the writer only at the position the parser queued; detach() positions identify absolute bit positions; plus the scanner/parser unit lemmas (C14, parse steps).",
          "Step-wise, not a whole-run exploration: do_retrieve()'s legitimacy bookkeeping and the interplay of several running tasks are NOT covered; 'fails exactly when the sequential decoding fails' is covered only through C05's steps. Codec calls are stubs; candidates on record <= 1 (quick) / 3 (thorough)."),
  "C11": ("5 (C11)", 'Rely/guarantee steps over the real tasks of BOTH schedulers: from any state satisfying the monitor invariant (conservation of work units, output slots and input pieces, job queues within capacity) every task of compress.c (collect, collect_seq, transmit, reorder, write-complete, input-available) and of expand.c (parse, scan, retrieve, emit, reorder, write-complete) re-establishes it at every lock release, with the state re-havocked at every lock acquisition; the transmit reservation rule (last two slots only for the block at the current stream position); termination guards imply all queues empty and all slots returned; real heap helpers keep heap order; the writer receives blocks in stream order; only the parser and the reorder task may end a run with a data error.',
-         'Deadlock-freedom / termination is NOT proved (only safety invariants, the reservation rule and the termination guards). For expand.c the bounds of unord_q, order_q, scan_q and input_q are not covered (they need a relational invariant over speculative jobs). Assumes C12. Worker count 1..3 (compress) / 1..2 (expand); codec calls are stubs.'),
+         'Deadlock-freedom / termination is NOT proved (only safety invariants, the reservation rule and the termination guards). For expand.c the unord_q capacity is checked against the reservation bound under the paper argument J of DESIGN.md (records are backed by resources of speculative jobs; J itself is not decided); the bounds of order_q, scan_q and input_q are not covered. Assumes C12. Worker count 1..3 (compress) / 1..2 (expand); codec calls are stubs.'),
  "C13": ("5 (C13)", "Mechanism, not RSS: set_memory_constraints() yields slot totals <= 16w+2 and buffer sizes <= 1 MiB for every worker count 1..65535/level/mode; both schedulers conserve work units and output slots (RG steps), so jobs and buffers in flight are bounded by those totals; every allocation of a decompression task is bounded by a constant plus one output buffer; the retriever state is released exactly once per block; an accepted block's buffer always goes to the writer (which frees it), also with -t.",
          'RSS itself is not observable by this technique; the encoder/decoder working buffers are stubs in the scheduler queries (their sizes are constants of the level); input-slot accounting of the reader thread is not covered.'),
  "C14": ("5 (C14)", 'mini_dfa == KMP automaton of the 48-bit pattern for all 48x2 transitions; big_dfa == 8 mini steps for all 49x256; scan() == first complete occurrence (48+32 bits) at/after the skip point, exact end position, on all streams of <=32 live bits + 2 and + 4 words (3 and 5 in the thorough tier); the `goto again` loop is unwound statically and the absence of a third traversal is proved.',
